@@ -18,87 +18,113 @@ theorem fileImports_sub (q : PkgSrc) (file : Nat) : ∀ x, x ∈ fileImports q f
   · exact hx
   · simp at hx
 
+/-- every package the target type names is visible from the file of the declaration -/
+def TyVisible (q : PkgSrc) (d : ImplD) : Prop :=
+  ∀ n ∈ d.tyNames, packageAllowed n q.name (fileImports q d.file) = true
+
 /-- the conditions under which `define_trait_impl` inserts the impl without any diagnostic -/
 def Registrable (q : PkgSrc) (d : ImplD) : Prop :=
-  packageAllowed d.tr q.name (fileImports q d.file) = true ∧
-  (d.ty = intName ∨ packageAllowed d.ty q.name (fileImports q d.file) = true) ∧
-  (d.tr = q.name ∨ (d.ty ≠ intName ∧ d.ty = q.name))
+  packageAllowed d.tr q.name (fileImports q d.file) = true ∧ TyVisible q d ∧
+  (d.tr = q.name ∨ d.typeLocalTo q.name = true)
+
+/-- the conditions under which `define_inherent_impl` reports nothing -/
+def InherentOk (q : PkgSrc) (d : ImplD) : Prop := TyVisible q d ∧ d.typeLocalTo q.name = true
 
 theorem implStep_nil {q : PkgSrc} {st : LocalSt} {d : ImplD} (h : (implStep q st d).cls = []) :
-    st.cls = [] ∧ Registrable q d ∧ d.key ∉ st.reg ∧ (implStep q st d).reg = st.reg ++ [d.key] := by
-  by_cases h1 : packageAllowed d.tr q.name (fileImports q d.file) = true
+    st.cls = [] ∧
+    ((d.inherent = true ∧ InherentOk q d ∧ (implStep q st d).reg = st.reg) ∨
+     (d.inherent = false ∧ Registrable q d ∧ d.key ∉ st.reg ∧ (implStep q st d).reg = st.reg ++ [d.key])) := by
+  by_cases hall : (d.tyNames.all fun n => packageAllowed n q.name (fileImports q d.file)) = true
   swap
-  · simp [implStep, h1] at h
-  by_cases hr : d.key ∈ st.reg
-  · -- a key that is already registered always yields a diagnostic
+  · -- some package named in the type is not visible: always a diagnostic
     exfalso
-    have hr' : st.reg.contains d.key = true := by simpa using hr
+    have hall' : (d.tyNames.all fun n => packageAllowed n q.name (fileImports q d.file)) = false := by simpa using hall
     unfold implStep at h
-    simp only [h1, Bool.not_true, Bool.false_eq_true, if_false, hr', if_true] at h
-    split at h <;> simp at h
-  have hr' : st.reg.contains d.key = false := by simpa using hr
-  by_cases hb : d.ty = intName
-  · have hb' : (d.ty == intName) = true := by simpa using hb
+    simp only [hall', Bool.false_eq_true, if_false] at h
+    split at h
+    · split at h <;> simp at h
+    · split at h
+      · simp at h
+      · split at h
+        · simp at h
+        · split at h <;> simp at h
+  have hvis : TyVisible q d := by
+    intro n hn
+    exact (List.all_eq_true.1 hall) n hn
+  by_cases hinh : d.inherent = true
+  · by_cases hloc : d.typeLocalTo q.name = true
+    · refine ⟨?_, Or.inl ⟨hinh, ⟨hvis, hloc⟩, ?_⟩⟩
+      · simpa [implStep, hall, hinh, hloc] using h
+      · simp [implStep, hall, hinh, hloc]
+    · have hloc' : d.typeLocalTo q.name = false := by simpa using hloc
+      simp [implStep, hall, hinh, hloc'] at h
+  · have hinh' : d.inherent = false := by simpa using hinh
+    by_cases h1 : packageAllowed d.tr q.name (fileImports q d.file) = true
+    swap
+    · have h1' : packageAllowed d.tr q.name (fileImports q d.file) = false := by simpa using h1
+      simp [implStep, hinh', h1'] at h
+    by_cases hr : d.key ∈ st.reg
+    · exfalso
+      have hr' : st.reg.contains d.key = true := by simpa using hr
+      unfold implStep at h
+      simp only [hall, if_true, hinh', Bool.false_eq_true, if_false, h1, Bool.not_true, hr', List.append_nil] at h
+      split at h <;> simp at h
     by_cases hl : d.tr = q.name
     · have hl' : (d.tr == q.name) = true := by simpa using hl
-      refine ⟨?_, ⟨h1, Or.inl hb, Or.inl hl⟩, hr, ?_⟩
-      · simpa [implStep, h1, hb', hl', hr] using h
-      · simp [implStep, h1, hb', hl', hr]
+      refine ⟨?_, Or.inr ⟨hinh', ⟨h1, hvis, Or.inl hl⟩, hr, ?_⟩⟩
+      · simpa [implStep, hall, hinh', h1, hl', hr] using h
+      · simp [implStep, hall, hinh', h1, hl', hr]
     · have hl' : (d.tr == q.name) = false := by simpa using hl
-      simp [implStep, h1, hb', hl'] at h
-  · have hb' : (d.ty == intName) = false := by simpa using hb
-    by_cases h2 : packageAllowed d.ty q.name (fileImports q d.file) = true
-    · by_cases hl : d.tr = q.name
-      · have hl' : (d.tr == q.name) = true := by simpa using hl
-        refine ⟨?_, ⟨h1, Or.inr h2, Or.inl hl⟩, hr, ?_⟩
-        · simpa [implStep, h1, hb', h2, hl', hr] using h
-        · simp [implStep, h1, hb', h2, hl', hr]
-      · have hl' : (d.tr == q.name) = false := by simpa using hl
-        by_cases ht : d.ty = q.name
-        · have ht' : (d.ty == q.name) = true := by simpa using ht
-          refine ⟨?_, ⟨h1, Or.inr h2, Or.inr ⟨hb, ht⟩⟩, hr, ?_⟩
-          · simpa [implStep, h1, hb', h2, hl', ht', hr] using h
-          · simp [implStep, h1, hb', h2, hl', ht', hr]
-        · have ht' : (d.ty == q.name) = false := by simpa using ht
-          simp [implStep, h1, hb', h2, hl', ht'] at h
-    · exfalso
-      have h2' : packageAllowed d.ty q.name (fileImports q d.file) = false := by simpa using h2
-      unfold implStep at h
-      simp only [h1, Bool.not_true, Bool.false_eq_true, if_false, hb', h2', Bool.or_false] at h
-      split at h
-      · simp at h
-      · split at h <;> simp at h
+      by_cases hloc : d.typeLocalTo q.name = true
+      · refine ⟨?_, Or.inr ⟨hinh', ⟨h1, hvis, Or.inr hloc⟩, hr, ?_⟩⟩
+        · simpa [implStep, hall, hinh', h1, hl', hloc, hr] using h
+        · simp [implStep, hall, hinh', h1, hl', hloc, hr]
+      · have hloc' : d.typeLocalTo q.name = false := by simpa using hloc
+        simp [implStep, hall, hinh', h1, hl', hloc'] at h
+
+/-- the trait impls among the declarations -/
+def traitImpls (l : List ImplD) : List ImplD := l.filter fun d => !d.inherent
 
 theorem foldl_implStep_nil {q : PkgSrc} : ∀ (l : List ImplD) (st : LocalSt),
     (l.foldl (implStep q) st).cls = [] →
-      st.cls = [] ∧ (∀ d ∈ l, Registrable q d) ∧
-      (l.foldl (implStep q) st).reg = st.reg ++ l.map ImplD.key ∧
+      st.cls = [] ∧ (∀ d ∈ l, (d.inherent = true → InherentOk q d) ∧ (d.inherent = false → Registrable q d)) ∧
+      (l.foldl (implStep q) st).reg = st.reg ++ (traitImpls l).map ImplD.key ∧
       (st.reg.Nodup → (l.foldl (implStep q) st).reg.Nodup) := by
   intro l
   induction l with
-  | nil => intro st h; exact ⟨h, by simp, by simp, id⟩
+  | nil => intro st h; exact ⟨h, by simp, by simp [traitImpls], id⟩
   | cons d l ih =>
     intro st h
     simp only [List.foldl_cons] at h ⊢
     obtain ⟨c1, r1, e1, n1⟩ := ih _ h
-    obtain ⟨c0, r0, notin, e0⟩ := implStep_nil c1
-    refine ⟨c0, ?_, ?_, ?_⟩
-    · intro x hx
-      rcases List.mem_cons.1 hx with rfl | hx
-      · exact r0
-      · exact r1 x hx
-    · rw [e1, e0]; simp
-    · intro hn
-      apply n1
-      rw [e0]
-      exact List.nodup_append.2 ⟨hn, List.nodup_singleton _, fun a ha b hb e => by
-        have : b = d.key := by simpa using hb
-        exact notin (this ▸ e ▸ ha)⟩
+    obtain ⟨c0, hcase⟩ := implStep_nil c1
+    rcases hcase with ⟨hi, ok, e0⟩ | ⟨hi, r0, notin, e0⟩
+    · refine ⟨c0, ?_, ?_, ?_⟩
+      · intro x hx
+        rcases List.mem_cons.1 hx with rfl | hx
+        · exact ⟨fun _ => ok, fun hf => absurd (hi.symm.trans hf) (by decide)⟩
+        · exact r1 x hx
+      · rw [e1, e0]; simp [traitImpls, hi]
+      · intro hn; apply n1; rw [e0]; exact hn
+    · refine ⟨c0, ?_, ?_, ?_⟩
+      · intro x hx
+        rcases List.mem_cons.1 hx with rfl | hx
+        · exact ⟨fun ht => absurd (ht.symm.trans hi) (by decide), fun _ => r0⟩
+        · exact r1 x hx
+      · rw [e1, e0]; simp [traitImpls, hi]
+      · intro hn
+        apply n1
+        rw [e0]
+        exact List.nodup_append.2 ⟨hn, List.nodup_singleton _, fun a ha b hb e => by
+          have : b = d.key := by simpa using hb
+          exact notin (this ▸ e ▸ ha)⟩
 
-/-- an error-free package registered its standard impl and every declared impl, each once -/
+/-- an error-free package registered its standard impl and every declared trait impl, each once;
+    its inherent impls are for its own types -/
 theorem localCheck_nil {q : PkgSrc} (h : (localCheck q).cls = []) :
-    (∀ u ∈ q.uses, useClasses q u = []) ∧ (∀ d ∈ q.impls, Registrable q d) ∧
-    (localCheck q).reg = stdKey q.name :: q.impls.map ImplD.key ∧ (localCheck q).reg.Nodup := by
+    (∀ u ∈ q.uses, useClasses q u = []) ∧
+    (∀ d ∈ q.impls, (d.inherent = true → InherentOk q d) ∧ (d.inherent = false → Registrable q d)) ∧
+    (localCheck q).reg = stdKey q.name :: (traitImpls q.impls).map ImplD.key ∧ (localCheck q).reg.Nodup := by
   unfold localCheck at h ⊢
   obtain ⟨c, r, e, n⟩ := foldl_implStep_nil q.impls _ h
   simp only at c
